@@ -116,14 +116,16 @@ def spec_reads(limit, data: bytes, n: int):
     return out
 
 
-ALPHABET = [10, 10, 59, 49, 50, 65, 0xC3, 0xA9, 0xE2, 0x82, 0xAC, 0xF0, 0x9F, 0x98, 0x80, 0xFF, 0x80, 13, 32]
+ALPHABET = [10, 10, 59, 49, 50, 65, 0xC3, 0xA9, 0xE2, 0x82, 0xAC, 0xF0, 0x9F, 0x98, 0x80, 0xFF, 0x80, 13, 32,
+            0x7B, 0x7D, 0x25, 0x5C, 0x27, 0x22]   # { } % \ ' " : text that means something to str.format / % / repr
 
 
 def gen_cases(ctx, rng):
     cases = []
     # every 2-cut chunking of short streams (exhaustive), reads after every feed
     shorts = [b"1;2\n3;4\n", b"a\nbb\n\nccc", b"\xc3\xa9\n\xff\n", b"12345678\n123456789\nx\n", b"\n\n", b"no newline", b"",
-              b"\xe2\x82\xac;1\n\xf0\x9f\x98\x80\n", b"abcdefghijklmnopq\nr\n"]
+              b"\xe2\x82\xac;1\n\xf0\x9f\x98\x80\n", b"abcdefghijklmnopq\nr\n",
+              b"1;2;{\n{0} {1}", b"{\"t\": 1}\n{x", b"%s %d\n}\xff{\n%(a)s"]
     for data in shorts:
         for limit in (8, 64):
             for i in range(len(data) + 1):
@@ -266,7 +268,7 @@ def run(ctx, model_available=True):
                 failures.append({"kind": "oracle", "sig": "C17:connect", "desc": f"failed connection attempt raised {type(e).__name__}", "case": {}})
     # the stream ends (cleanly between two lines, or inside a line): the read is a read error and
     # a later disconnect still closes the stream
-    for tail in (b"", b"1;2;1;0;2", b"\xc3"):
+    for tail in (b"", b"1;2;1;0;2", b"\xc3", b"{", b"1;2;{0}{1}", b"}\xff", b"%s{\"t\"}"):
         async def mk2():
             return asyncio.StreamReader()
 
